@@ -51,6 +51,15 @@ fn main() {
             }
             exit(c06::abort_demo(&args[2]));
         }
+        "c05-cell" => {
+            // verif c05-cell <n> <side_a> <phase> <start_event> <extra>
+            let a: Vec<u64> = args[2..].iter().filter_map(|s| s.parse().ok()).collect();
+            if a.len() < 5 {
+                usage();
+            }
+            let cell = e2_checks2::C05Cell { n: a[0] as usize, side_a: a[1] as usize, phase: a[2], start_event: a[3], extra: a[4], asymmetric: a[1] == 0 };
+            exit(e2_checks2::c05_show(&cell, &Default::default()));
+        }
         "abort-demo-decode" => {
             if args.len() < 3 {
                 usage();
